@@ -536,6 +536,10 @@ impl Machine {
                 return cand;
             }
         }
+        // one id in seven starts with '#' (URI-fragment style; a comment marker in many line-based formats)
+        if (self.counter + sfx as usize) % 7 == 3 {
+            return format!("#{}{}{}", prefix, self.counter, self.sfx(sfx));
+        }
         format!("{}{}{}", prefix, self.counter, self.sfx(sfx))
     }
 
